@@ -22,10 +22,11 @@ var errConnClosed = errors.New("sim: use of closed connection")
 var errConnRefused = errors.New("sim: connection refused")
 
 type simConn struct {
-	id    int
-	sim   *Sim
-	a, b  *connEnd // a = dialer, b = acceptor
-	label string
+	id     int
+	sim    *Sim
+	a, b   *connEnd // a = dialer, b = acceptor
+	label  string
+	hidden bool // delivered automatically, never a scheduler action (zombie traffic)
 }
 
 // connEnd is one end of a connection and implements net.Conn.
@@ -174,6 +175,9 @@ func (c *simConn) dead() bool {
 // deliverActions lists deliver actions for both directions; sim.mu held.
 func (c *simConn) deliverActions() []action {
 	var acts []action
+	if c.hidden {
+		return nil
+	}
 	now := c.sim.now()
 	for _, e := range []*connEnd{c.a, c.b} {
 		e := e
@@ -380,8 +384,13 @@ func simHTTPDial(ctx context.Context, network, addr string) (net.Conn, error) {
 	s.mu.Lock()
 	g := s.whoLocked()
 	s.mu.Unlock()
-	if g.inst == nil || g.inst.dead {
+	if g.inst == nil {
 		return nil, errConnRefused
+	}
+	if g.inst.dead {
+		// a retired instance's senders get a black hole that accepts
+		// everything, so that they stop retrying and can be shut down
+		return s.zombieSinkDial(), nil
 	}
 	from := simAddr(fmt.Sprintf("%s:%d", g.inst.node.ip, 40001))
 	e, err := s.dial("http:"+g.inst.node.name, from, simAddr(addr))
@@ -390,4 +399,56 @@ func simHTTPDial(ctx context.Context, network, addr string) (net.Conn, error) {
 	}
 	e.inst = g.inst
 	return e, nil
+}
+
+// zombieSinkDial returns a connection to a private always-200 HTTP sink.
+func (s *Sim) zombieSinkDial() *connEnd {
+	if s.zsink == nil {
+		s.zsink = &Webhook{sim: s, addr: "zombie-sink:80"}
+		s.zsink.quiet = true
+	}
+	s.mu.Lock()
+	seq := s.connSeq
+	c := s.newConn("zsink", "zombie:1", "zombie-sink:80")
+	s.connSeq = seq // hidden connections do not consume visible connection ids
+	s.hiddenSeq++
+	c.id = 9000 + s.hiddenSeq
+	c.hidden = true
+	s.mu.Unlock()
+	s.zsink.accept(c.b)
+	return c.a
+}
+
+// deliverAll moves everything in flight (and EOF) without drawing choices;
+// used for hidden (zombie) connections only.
+func (e *connEnd) deliverAll() bool {
+	s := e.c.sim
+	s.mu.Lock()
+	if e.closed || e.reset {
+		s.mu.Unlock()
+		return false
+	}
+	var moved []byte
+	for _, ch := range e.inflight {
+		moved = append(moved, ch...)
+	}
+	e.inflight, e.inflightN = nil, 0
+	eof := e.peerClosed && !e.eofDelivered
+	if eof {
+		e.eofDelivered = true
+	}
+	if len(moved) > 0 && e.onData == nil {
+		e.rbuf = append(e.rbuf, moved...)
+	}
+	if len(moved) > 0 || eof {
+		e.cond.Broadcast()
+	}
+	s.mu.Unlock()
+	if len(moved) > 0 && e.onData != nil {
+		e.onData(moved)
+	}
+	if eof && e.onEOF != nil {
+		e.onEOF()
+	}
+	return len(moved) > 0 || eof
 }
